@@ -69,6 +69,46 @@ Proof.
   - destruct (IH Hn') as [[H1 H2]|[it' [t' [H1 [H2 H3]]]]]; [left|right; exists it', t']; auto.
 Qed.
 
+(** rows: as [col_rel], except that an expression target without AS alias has no
+    name in the reference row (sqlc may invent one: the function's name) *)
+Definition row_rel (x : sccol) (c : qcol) : Prop :=
+  (sc_name x = qc_name c \/ (sc_name x = "" /\ sc_src x = None)) /\
+  match sc_src x with
+  | Some (_, _, col) => qc_dt c = data_type (col_type col) /\ qc_nn c = col_notnull col /\ qc_arr c = col_array col
+  | None => True
+  end.
+Lemma col_row_rel x c : col_rel x c -> row_rel x c.
+Proof. intros [Hn Ht]. split; [left; exact Hn|exact Ht]. Qed.
+Lemma cols_rows_rel a b : Forall2 col_rel a b -> Forall2 row_rel a b.
+Proof. induction 1; constructor; auto using col_row_rel. Qed.
+Lemma Forall2_app_rr a b a' b' : Forall2 row_rel a b -> Forall2 row_rel a' b' -> Forall2 row_rel (a ++ a') (b ++ b').
+Proof. induction 1; simpl; [auto|]. intros H2. constructor; auto. Qed.
+
+(** result targets: stars, column references, and expressions that are not a
+    column reference, CASE, COALESCE, sub-select or cast *)
+Definition opaque_kind (k : string) : bool :=
+  negb (mem_str k ["ColumnRef"; "CaseExpr"; "CoalesceExpr"; "SubLink"; "TypeCast"]).
+Inductive target_ok (sc : scope) (res : node) : Prop :=
+| TO_simple : simple_target sc res -> target_ok sc res
+| TO_opaque : is_kind "ResTarget" res = true -> opaque_kind (kind_of (kid "Val" res)) = true -> target_ok sc res.
+
+Lemma opaque_target e tables res :
+  opaque_kind (kind_of (kid "Val" res)) = true ->
+  exists c, target_columns e tables res = Ok [c] /\
+            (qc_name c = some_or "" (res_name res) \/ res_name res = None).
+Proof.
+  unfold opaque_kind, target_columns. cbn [mem_str]. intros H.
+  apply Bool.negb_true_iff in H. repeat (apply Bool.orb_false_iff in H; destruct H as [? H]).
+  set (k := kind_of (kid "Val" res)) in *.
+  destruct (String.eqb k "A_Expr").
+  { repeat match goal with |- context [if ?b then _ else _] => destruct b end; eexists; split; try reflexivity; left; reflexivity. }
+  repeat match goal with Hx : String.eqb k _ = false |- _ => rewrite Hx; clear Hx end.
+  destruct (String.eqb k "FuncCall").
+  { destruct (resolve_func e (kid "Val" res)); eexists; (split; [reflexivity|]); simpl;
+      unfold res_name; destruct (str_opt "Name" res); simpl; auto. }
+  eexists; split; [reflexivity|]. left. reflexivity.
+Qed.
+
 (** renaming a column (AS, or the star's copy) keeps the relation *)
 Lemma col_rel_rename x c nm :
   col_rel x c -> col_rel (mkSC nm (sc_src x)) (mkQC nm (qc_dt c) (qc_nn c) (qc_arr c) "" (qc_table c)).
@@ -108,7 +148,7 @@ Proof.
   rewrite E, Hf. cbn [flat_map]. rewrite app_nil_r. apply star_cols_rel; assumption.
 Qed.
 
-Lemma target_refines_t e sc tables res row :
+Lemma target_refines_s e sc tables res row :
   scope_rel_t sc tables -> NoDup (map si_name sc) ->
   Forall (fun it => NoDup (map sc_name (si_cols it))) sc ->
   simple_target sc res ->
@@ -153,12 +193,36 @@ Proof.
         destruct Hxc as [Hnm Ht]; unfold res_name; destruct (str_opt "Name" res); simpl; split; auto.
 Qed.
 
+Lemma target_refines_t e sc tables res row :
+  scope_rel_t sc tables -> NoDup (map si_name sc) ->
+  Forall (fun it => NoDup (map sc_name (si_cols it))) sc ->
+  target_ok sc res ->
+  match row_step sc [sc] (POk row) res, target_columns e tables res with
+  | POk r', Ok a => exists d, r' = row ++ d /\ Forall2 row_rel d a
+  | PErr _, Err _ => True
+  | _, _ => False
+  end.
+Proof.
+  intros Hrel Hnd Hcols [Hst|Hk Hop].
+  - pose proof (target_refines_s e sc tables res row Hrel Hnd Hcols Hst) as H.
+    destruct (row_step sc [sc] (POk row) res); destruct (target_columns e tables res); auto.
+    destruct H as [d [-> Hd]]. exists d. split; [reflexivity|apply cols_rows_rel, Hd].
+  - destruct (opaque_target e tables res Hop) as [c [Hc Hn]]. rewrite Hc.
+    unfold row_step. cbn [pbind].
+    assert (Hnc : is_kind "ColumnRef" (kid "Val" res) = false).
+    { unfold opaque_kind in Hop. cbn [mem_str] in Hop. apply Bool.negb_true_iff in Hop.
+      apply Bool.orb_false_iff in Hop. destruct Hop as [Hop _]. unfold is_kind. exact Hop. }
+    rewrite Hnc. eexists. split; [reflexivity|]. constructor; [|constructor].
+    split; [|exact I]. cbn [sc_name sc_src]. unfold res_name in *.
+    destruct (str_opt "Name" res); simpl in *; destruct Hn as [Hn|Hn]; try discriminate; auto.
+Qed.
+
 Lemma level_refines_t_gen e sc tables targets : forall row,
   scope_rel_t sc tables -> NoDup (map si_name sc) ->
   Forall (fun it => NoDup (map sc_name (si_cols it))) sc ->
-  Forall (simple_target sc) targets ->
+  Forall (target_ok sc) targets ->
   match fold_left (row_step sc [sc]) targets (POk row), targets_columns e tables targets with
-  | POk r', Ok cols => exists d, r' = row ++ d /\ Forall2 col_rel d cols
+  | POk r', Ok cols => exists d, r' = row ++ d /\ Forall2 row_rel d cols
   | PErr _, Err _ => True
   | _, _ => False
   end.
@@ -166,7 +230,7 @@ Proof.
   induction targets as [|t ts IH]; intros row Hrel Hnd Hcols Hall; cbn [fold_left targets_columns].
   - exists []. split; [rewrite app_nil_r; reflexivity|constructor].
   - inversion Hall as [|? ? Hst Hall']; subst.
-    assert (Hk : is_kind "ResTarget" t = true) by (destruct Hst; assumption). rewrite Hk.
+    assert (Hk : is_kind "ResTarget" t = true) by (destruct Hst as [Hs|]; [destruct Hs|]; assumption). rewrite Hk.
     pose proof (target_refines_t e sc tables t row Hrel Hnd Hcols Hst) as Ht.
     destruct (row_step sc [sc] (POk row) t) as [r1|e1]; destruct (target_columns e tables t) as [a|m|m];
       try contradiction; cbn [bind].
@@ -175,7 +239,7 @@ Proof.
       destruct (fold_left (row_step sc [sc]) ts (POk (row ++ d1))) as [r2|e2];
         destruct (targets_columns e tables ts) as [b|m|m]; try contradiction; cbn [bind]; [|exact I].
       destruct IH as [d2 [-> Hd2]]. exists (d1 ++ d2). split; [rewrite app_assoc; reflexivity|].
-      apply Forall2_app_cr; assumption.
+      apply Forall2_app_rr; assumption.
     + rewrite row_fold_err. exact I.
 Qed.
 
@@ -183,9 +247,9 @@ Qed.
 Theorem level_refines_t e sc tables targets :
   scope_rel_t sc tables -> NoDup (map si_name sc) ->
   Forall (fun it => NoDup (map sc_name (si_cols it))) sc ->
-  Forall (simple_target sc) targets ->
+  Forall (target_ok sc) targets ->
   match row_of sc [sc] targets, targets_columns e tables targets with
-  | POk row, Ok cols => Forall2 col_rel row cols
+  | POk row, Ok cols => Forall2 row_rel row cols
   | PErr _, Err _ => True
   | _, _ => False
   end.
